@@ -14,6 +14,7 @@
 """Subprocess support.
 """
 
+import re
 import sys
 
 import zope.testrunner.feature
@@ -47,10 +48,11 @@ class SubProcess(zope.testrunner.feature.Feature):
               len(self.runner.failures), len(self.runner.errors),
               len(self.runner.skipped),
               file=self.original_stderr)
+        # One line per test: the parent splits the report at '\n' and '\r'.
         for test, exc_info in self.runner.failures:
-            print(' '.join(str(test).strip().split('\n')),
+            print(re.sub(r'[\r\n]+', ' ', str(test).strip()),
                   file=self.original_stderr)
         for test, exc_info in self.runner.errors:
-            print(' '.join(str(test).strip().split('\n')),
+            print(re.sub(r'[\r\n]+', ' ', str(test).strip()),
                   file=self.original_stderr)
         self.original_stderr.flush()
